@@ -416,9 +416,10 @@ ComponentPtr Component::clone() const
     c->setId(id());
     c->setName(name());
     c->setMath(math());
+    c->setEncapsulationId(encapsulationId());
 
     if (isImport()) {
-        c->setImportSource(importSource());
+        c->setImportSource(importSource()->clone());
     }
 
     c->setImportReference(importReference());
